@@ -15,7 +15,7 @@ From Coq Require Import List Arith ZArith.
 Import ListNotations.
 From YP Require Import Base.Str Term.Term Unify.Unify Lang.Ast Comp.IR Comp.CompileBody Comp.CompileClause Sem.Res Sem.RefSem Sem.IRSem Sem.ExecMono
   Sem.Machine Sem.RunSem Sem.ClauseSem Sem.ProgramCorrect Sem.Native Sem.NativeThms Sem.NativeFacts Sem.NativeSource Sem.NativeExc Engine.RunBoundedM Engine.NativeMono
-  Unify.Bounded Sem.Fresh Sem.RenameSim Sem.NativeRename.
+  Unify.Bounded Sem.Fresh Sem.RenameSim Sem.NativeRename Sem.NativeChain Sem.NativeChainExc Engine.BoundedMachine Engine.NativeChainMono.
 
 (* ---- sem_extensional: the answers of a body / of emitted code / of a whole engine depend on a predicate only through
         its answer function (no functional extensionality axiom) *)
@@ -395,4 +395,175 @@ Example C20_renaming_nonvacuous :
 Proof.
   split; [repeat constructor; discriminate|]. split; [repeat constructor; cbn; intuition discriminate|].
   split; [intros c [<-|[<-|[]]]; reflexivity|]. vm_compute. repeat split.
+Qed.
+
+(* ==== ONE PREDICATE DEFINED FROM MIXED SOURCES (round 3; Sem/NativeChain.v, Engine/NativeChainMono.v)
+   cdef                     a definition under a key: CNat f (a registered Python predicate) | CIr f (the generator function of a
+                            loaded script)
+   cworld                   the engine whose eval_context holds a CHAIN (list of definitions, as built by chain_functions) per key
+   run_chain call ds        itertools.chain over the members' generators, every member from the state of the call; the yielded
+                            values are passed through unseen; an exception in a member ends the chain
+   cquery n w               YP.query over such an engine
+   op / build               register_function (the key := [f]), load_script_from_string(script, overwrite) (every key the
+                            script defines := [g] / old chain ++ [g]), assert_fact; build = the engine after a sequence of them
+   op_twin                  the same operation, or register_function(python predicate over ground rows, yielding anything)
+                            against load_script(its facts, overwrite=True) *)
+
+Local Open Scope list_scope.
+
+(* the engine of the theorems above is the special case "one member per chain" *)
+Theorem C20_chain_engine_refines : forall w n name args s, cquery n (embed w) name args s = nquery n w name args s.
+Proof. exact cquery_refines_nquery. Qed.
+Print Assumptions C20_chain_engine_refines.
+
+(* a chain answers with the concatenation of its members' answers - WHATEVER they yield (True is not a cut here) - up to the
+   first exception *)
+Theorem C20_chain_is_concatenation : forall call ds1 ds2 args s,
+  run_chain call (ds1 ++ ds2) args s =
+  (if snd (run_chain call ds1 args s) then (fst (run_chain call ds1 args s), true)
+   else (fst (run_chain call ds1 args s) ++ fst (run_chain call ds2 args s), snd (run_chain call ds2 args s))).
+Proof. exact run_chain_app. Qed.
+Print Assumptions C20_chain_is_concatenation.
+
+Theorem C20_chain_of_two : forall call d1 d2 args s,
+  run_chain call [d1; d2] args s =
+  (if snd (run_def call d1 args s) then (fst (run_def call d1 args s), true)
+   else (fst (run_def call d1 args s) ++ fst (run_def call d2 args s), snd (run_def call d2 args s))).
+Proof. exact run_chain_two. Qed.
+Print Assumptions C20_chain_of_two.
+
+(* engines whose chains agree member by member for a value-ignoring consumer answer every query alike *)
+Theorem C20_chain_members_interchangeable : forall w1 w2, members_agree w1 w2 ->
+  forall n name args s, cquery n w1 name args s = cquery n w2 name args s.
+Proof. exact chain_members_interchangeable. Qed.
+Print Assumptions C20_chain_members_interchangeable.
+
+(* a Python predicate over ground rows, whatever it yields, and the function compiled from its facts are such members *)
+Theorem C20_chain_member_python_vs_compiled : forall name k rows vals f cnt cnt',
+  Forall (fun row => ground_row row = true /\ length row = k) rows ->
+  compile_clauses (map (fact_clause name) rows) cnt = Some (fn_body f, cnt') ->
+  def_equiv k (CNat (native_rows (map row_of rows) vals)) (CIr f).
+Proof. exact def_equiv_facts. Qed.
+Print Assumptions C20_chain_member_python_vs_compiled.
+
+(* engines BUILT by the same sequence of register_function / load_script (overwrite or not) / assert_fact, in any order,
+   with Python predicates on one side and their facts loaded with overwrite=True on the other (any subset, any yielded
+   values), answer every query alike at every depth *)
+Theorem C20_mixed_sources_interchangeable : forall ops1 ops2, Forall2 op_twin ops1 ops2 ->
+  forall n name args s, cquery n (build cempty ops1) name args s = cquery n (build cempty ops2) name args s.
+Proof. exact mixed_sources_interchangeable. Qed.
+Print Assumptions C20_mixed_sources_interchangeable.
+
+(* the same for SOURCE scripts, each compiled on its own by the model compiler (what the check runs): sop_twin = the same
+   operation, register_function(python predicate over the rows) with other yielded values, or - for n >= 1 ground rows -
+   register_function(name, python predicate over the rows) against load_script(compile("name(row_1). .. name(row_n)."), overwrite=True) *)
+Theorem C20_mixed_sources_interchangeable_source : forall l1 l2 o1 o2, Forall2 sop_twin l1 l2 ->
+  sops_ops l1 = Some o1 -> sops_ops l2 = Some o2 ->
+  forall n name args s, cquery n (build cempty o1) name args s = cquery n (build cempty o2) name args s.
+Proof. exact source_mixed_sources_interchangeable. Qed.
+Print Assumptions C20_mixed_sources_interchangeable_source.
+
+(* register_function(p, python predicate over the rows); load_script(clauses cs2 of p, overwrite=False)  answers like the
+   ONE definition  p(row_1). .. p(row_n). cs2 : the rows are the first clauses of the predicate *)
+Theorem C20_python_then_script_is_one_definition : forall call name rows vals cs2 f2 f12 cnt2 cnt2' cnt12 cnt12' args s,
+  Forall (fun row => ground_row row = true /\ length row = length args) rows ->
+  Forall good_clause cs2 ->
+  compile_clauses cs2 cnt2 = Some (fn_body f2, cnt2') ->
+  compile_clauses (map (fact_clause name) rows ++ cs2) cnt12 = Some (fn_body f12, cnt12') ->
+  run_chain call [CNat (native_rows (map row_of rows) vals); CIr f2] args s = run_def call (CIr f12) args s.
+Proof. exact python_then_script_is_one_definition. Qed.
+Print Assumptions C20_python_then_script_is_one_definition.
+
+Theorem C20_chained_python_predicate_is_first_clauses : forall w w' name k rows vals cs2,
+  chained_vs_single w w' name k rows vals cs2 ->
+  forall n qname args s, cquery n w qname args s = cquery n w' qname args s.
+Proof. exact chained_python_predicate_is_first_clauses. Qed.
+Print Assumptions C20_chained_python_predicate_is_first_clauses.
+
+(* monotone in the call depth and in the Python predicates that are members of chains *)
+Theorem C20_chain_engine_monotone : forall w1 w2 n m, cworld_le w1 w2 -> n <= m -> call_le (cquery n w1) (cquery m w2).
+Proof. exact cquery_mono. Qed.
+Print Assumptions C20_chain_engine_monotone.
+
+(* the member number i of the chain under pname/k raises instead of its answer number j: any query, in any context, is only
+   cut short - the answers are a prefix and the query ends with the exception - or does not change at all *)
+Theorem C20_exception_passthrough_chain_member : forall w pname k i j n name args s,
+  let r' := cquery n (with_raising_member w pname k i j) name args s in
+  let r := cquery n w name args s in
+  (snd r' = false /\ r' = r) \/ (snd r' = true /\ prefixl (fst r') (fst r)).
+Proof. exact exception_passthrough_member. Qed.
+Print Assumptions C20_exception_passthrough_chain_member.
+
+Theorem C20_exception_at_the_chain : forall call ds1 f ds2 j args s,
+  snd (run_chain call ds1 args s) = false -> j < length (fst (f args s)) ->
+  run_chain call (ds1 ++ CNat (raising f j) :: ds2) args s =
+  (fst (run_chain call ds1 args s) ++ firstn j (fst (drop (f args s))), true).
+Proof. exact raising_member_at_the_chain. Qed.
+Print Assumptions C20_exception_at_the_chain.
+
+(* the chain engine with the exception OBJECT carried along (Sem/NativeChainExc.v; what the check evaluates): it erases to cquery,
+   also when built by a sequence of operations; and whatever property the engine's own exceptions and those raised by the Python
+   predicates that are chain members (or variadic) have, the exception that ends any query has it - chain_functions /
+   itertools.chain create, wrap or replace nothing *)
+Theorem C20_chain_engine_with_exceptions_refines : forall w n name args s,
+  er (cqueryE n w name args s) = cquery n (erase_cworld w) name args s.
+Proof. exact erase_cqueryE. Qed.
+Print Assumptions C20_chain_engine_with_exceptions_refines.
+
+Theorem C20_chain_engine_with_exceptions_built : forall ops n name args s,
+  er (cqueryE n (buildE cemptyE ops) name args s) = cquery n (build cempty (map erase_op ops)) name args s.
+Proof. exact erase_built_cqueryE. Qed.
+Print Assumptions C20_chain_engine_with_exceptions_built.
+
+Theorem C20_chain_exception_provenance : forall Q : exn -> Prop, Q XDepth -> Q XUnify -> Q XGoal -> Q XCode ->
+  forall w : cworldE,
+  (forall name k ds f args s e, ce_fix w name k = Some ds -> In (ENat f) ds -> snd (f args s) = Some e -> Q e) ->
+  (forall name f args s e, ce_var w name = Some f -> snd (f args s) = Some e -> Q e) ->
+  forall n name args s e, snd (cqueryE n w name args s) = Some e -> Q e.
+Proof. exact chain_exception_provenance. Qed.
+Print Assumptions C20_chain_exception_provenance.
+
+Theorem C20_chain_exception_unchanged : forall w tag,
+  (forall name k ds f args s e, ce_fix w name k = Some ds -> In (ENat f) ds -> snd (f args s) = Some e -> e = XPy tag) ->
+  (forall name f args s e, ce_var w name = Some f -> snd (f args s) = Some e -> e = XPy tag) ->
+  forall n name args s e, snd (cqueryE n w name args s) = Some e -> engine_exn e \/ e = XPy tag.
+Proof. exact chain_exception_unchanged. Qed.
+Print Assumptions C20_chain_exception_unchanged.
+
+(* non-vacuity: rules  c1(X) :- m(X).  c2(X) :- m(X), !.  c5(L) :- findall(X, m(X), L).  loaded first; then
+   register_function(m, python predicate over {a, b} yielding True); then load_script(m(c). m(X) :- c2(X)., overwrite=False) *)
+Definition ch_rules : program :=
+  [ {| c_name := d "c1"; c_args := [X]; c_body := BCall (d "m") [X] |};
+    {| c_name := d "c2"; c_args := [X]; c_body := BAnd (BCall (d "m") [X]) BCut |};
+    {| c_name := d "c5"; c_args := [L]; c_body := BCall (d "findall") [X; SFun (d "m") [X]; L] |} ].
+Definition ch_rows := [[A "a"]; [A "b"]].
+Definition ch_later : program := [ fact_clause (d "m") [A "c"] ].
+Definition ch_code (p : list clause) : list stmt := match compile_clauses p 0 with Some (code, _) => code | None => [] end.
+Definition ch_f (p : list clause) : func := {| fn_name := d "m"; fn_arity := 1; fn_body := ch_code p |}.
+Definition ch_ir : ir_program := match compile_program ch_rules with Some ir => ir | None => [] end.
+Definition ch_m := native_rows (map row_of ch_rows) [true; true].
+Definition ch_py : list op := [OLoad ch_ir true; OReg (d "m") 1 ch_m; OLoad [ch_f ch_later] false].
+Definition ch_tw : list op := [OLoad ch_ir true; OLoad [ch_f (map (fact_clause (d "m")) ch_rows)] true; OLoad [ch_f ch_later] false].
+
+Example C20_chain_nonvacuous :
+  Forall2 op_twin ch_py ch_tw /\
+  c_fix (build cempty ch_py) (d "m") 1 = Some [CNat ch_m; CIr (ch_f ch_later)] /\
+  (let ta := TAtom (d "a") in let tb := TAtom (d "b") in let tc := TAtom (d "c") in
+   let ans := fun nq (r : list st * bool) => (map (answer_of nq) (fst r), snd r) in
+   ans 1 (cquery 6 (build cempty ch_py) (d "m") [TVar 0] (st0 1)) = ([[ta]; [tb]; [tc]], false) /\
+   ans 1 (cquery 6 (build cempty ch_tw) (d "c1") [TVar 0] (st0 1)) = ([[ta]; [tb]; [tc]], false) /\
+   ans 1 (cquery 6 (build cempty ch_py) (d "c2") [TVar 0] (st0 1)) = ([[ta]], false) /\
+   ans 1 (cquery 6 (build cempty ch_py) (d "c5") [TVar 0] (st0 1)) = ([[mk_list [ta; tb; tc]]], false) /\
+   (* the Python predicate (member 0 of the chain) raises instead of its answer number 1: a, then the exception; m(c) is not tried *)
+   ans 1 (cquery 6 (with_raising_member (build cempty ch_py) (d "m") 1 0 1) (d "c1") [TVar 0] (st0 1)) = ([[ta]], true) /\
+   ans 1 (cquery 6 (with_raising_member (build cempty ch_py) (d "m") 1 0 1) (d "c2") [TVar 0] (st0 1)) = ([[ta]], false) /\
+   (* with the exception object: the Python predicate raises XPy 7 instead of its answer number 1; three frames up it is XPy 7 *)
+   (let r := cqueryE 6 (buildE cemptyE [ELoad ch_ir true; EReg (d "m") 1 (raisingE (liftE ch_m) 1 7); ELoad [ch_f ch_later] false])
+               (d "c1") [TVar 0] (st0 1) in (map (answer_of 1) (fst r), snd r) = ([[ta]], Some (XPy 7)))).
+Proof.
+  split.
+  { constructor; [apply twin_same|]. constructor; [|constructor; [apply twin_same|constructor]].
+    eapply (twin_facts (d "m") 1 ch_rows [true; true] _ 0); [discriminate|repeat constructor| |reflexivity|reflexivity].
+    vm_compute. reflexivity. }
+  split; [reflexivity|]. vm_compute. repeat split.
 Qed.
